@@ -13,7 +13,6 @@ import (
 
 // notApplicable gives the reason for properties that are deliberately not claimed.
 var notApplicable = map[string]string{
-	"C11": "parallel-connection indices are index arithmetic over declaration/deletion histories; the only structural candidate (the shape of the creation-time index computation) would also fire on behaviour-preserving rewrites, so no static clause is armed",
 	"C38": "delete semantics is a semantic diff of graphs before/after an edit; needs execution or a reference model, which is a different technique family",
 	"C39": "rename/move semantics is a semantic diff of graphs before/after an edit; needs execution or a reference model",
 	"C40": "agreement of the results of two large functions (the edit and its ID-delta prediction) over all edits; no structural necessary condition that would not also fire on refactors",
